@@ -101,7 +101,7 @@ PROPS = {
         "assumptions": ["a failure = one cluster-side phase failing (or the process dying there) with release storage itself working; storage-write failures are C01's finding success-with-storage-write-failure"],
     },
     "C06": {
-        "corr": [("actions", {"quick": 600, "thorough": 12000}), ("kube", {"quick": 1000, "thorough": 20000})],
+        "corr": [("dryrun", {"quick": 1200, "thorough": 30000}), ("actions", {"quick": 500, "thorough": 12000}), ("kube", {"quick": 800, "thorough": 20000})],
         "also": ["C01:model:", "C02:model:"],
         "trusted_base": [
             "modelled, not verified: helm template's command-line wiring (pkg/cmd/template.go sets DryRun/ClientOnly on action.Install; the harness drives action.Install with those fields), post-renderers and CRD directories (the crash/render sweeps of C05/C20 exercise them without a model); observed: request log of the simulated API server and call log of the recording storage wrapper",
@@ -116,12 +116,12 @@ PROPS = {
         "assumptions": ["every request is accepted (the property's premise)", "objects are flat; nested fields, lists with merge keys and server-side defaulting are outside the model", "strings.ToLower / TrimSpace of the resource-policy value are modelled for ASCII"],
     },
     "C07": {
-        "corr": [("kube", {"quick": 1500, "thorough": 40000})],
-        "also": ["C02:model:"],
+        "corr": [("kube", {"quick": 1500, "thorough": 40000}), ("dryrun", {"quick": 800, "thorough": 20000})],
+        "also": ["C02:model:", "C06:model:"],
         "trusted_base": [
             "same cluster model and simulator as C02; the record side (no storage write before the ownership check) is the ledger model's pre-flight phase, tied by the kube sub-command's storage write log",
         ],
-        "assumptions": ["six ownership states are generated for pre-existing objects: foreign, other release name, same name other namespace, label only, annotations only, correctly owned", "CRDs from crds/ are not generated by this sub-command (the install path creates them before the ownership check; see DESIGN.md)"],
+        "assumptions": ["six ownership states are generated for pre-existing objects: foreign, other release name, same name other namespace, label only, annotations only, correctly owned", "CRDs from crds/ are generated by the dryrun sub-command (the install path creates them before the ownership check: known finding)"],
     },
     "C12": {
         "corr": [("hooks", {"quick": 1200, "thorough": 30000})],
